@@ -344,7 +344,7 @@ def run_inplace(W, cfg):
 
 # ------------------------------------------------------------------ histories
 def cfg_hist(tier, seed):
-    out = [{'case': c} for c in ('plane-reuse', 'interleaved-dft2', 'fit-tilt-twice', 'fit-tilt-twice-segmented', 'spectrum-reuse', 'wavefront-fanout', 'offset-dft2-twice', 'scratch-reuse')]
+    out = [{'case': c} for c in ('plane-reuse', 'interleaved-dft2', 'fit-tilt-twice', 'fit-tilt-twice-segmented', 'spectrum-reuse', 'spectrum-edit-sample', 'wavefront-fanout', 'offset-dft2-twice', 'scratch-reuse')]
     return out, len(out), True
 
 
@@ -438,6 +438,28 @@ def run_hist(W, cfg):
             # shift = z * angle / du with concrete angles: compare the angle factors with a tolerance for the float least squares
             W.ob_close(f'segment {k}: same total tilt by either route (rows)', sa[0] * du / z * 1e6, sb[0] * du / z * 1e6, 1e-6)
             W.ob_close(f'segment {k}: same total tilt by either route (cols)', sa[1] * du / z * 1e6, sb[1] * du / z * 1e6, 1e-6)
+    elif case == 'spectrum-edit-sample':
+        # sample in another wavelength unit, edit the values (setter, flux-unit conversion, in-place arithmetic), sample again:
+        # the answer is that of a fresh Spectrum in the same state
+        R = W.mod('radiometry')
+        grid = [500, 510, 520]
+        v = [W.real('v0'), W.real('v1'), W.real('v2')]
+        u = [W.real('u0'), W.real('u1'), W.real('u2')]
+        q = [W.const(Fraction(x, 1000)) for x in (503, 515)]          # micrometres
+        for route in ('value-setter', 'flux-unit'):
+            s = R.Spectrum(W.array([W.const(Fraction(g)) for g in grid]), W.array(list(v)), waveunit='nm', valueunit='photlam')
+            first = s.sample(W.array(list(q)), waveunit='um')
+            if route == 'value-setter':
+                s.value = W.array(list(u))
+                fresh = R.Spectrum(W.array([W.const(Fraction(g)) for g in grid]), W.array(list(u)), waveunit='nm', valueunit='photlam')
+            else:
+                s.to('wlam')
+                fresh = R.Spectrum(W.array([W.const(Fraction(g)) for g in grid]), W.array(list(v)), waveunit='nm', valueunit='photlam')
+                fresh.to('wlam')
+            W.ob(f'{route}: sampling an edited Spectrum = sampling a fresh one in the same state',
+                 s.sample(W.array(list(q)), waveunit='um'), fresh.sample(W.array(list(q)), waveunit='um'))
+            W.ob(f'{route}: and again in its own unit', s.sample(W.array([W.const(Fraction(503)), W.const(Fraction(515))]), waveunit='nm'),
+                 fresh.sample(W.array([W.const(Fraction(503)), W.const(Fraction(515))]), waveunit='nm'))
     else:
         R = W.mod('radiometry')
         s = R.Spectrum(W.array([W.const(Fraction(x, 1000)) for x in (500, 510, 520)]), W.array([W.real('v0'), W.real('v1'), W.real('v2')]), waveunit='um')
